@@ -15,19 +15,11 @@ import time
 import traceback
 
 from .common import (Inconclusive, HarnessError, watchdog, case_hash, bucket_of,
-                     check_repo_import, eprint)
+                     check_repo_import, eprint, CaseFailed, TooManyInconclusive)
 from . import findings
 
 MAX_ROUNDS = 4
 MAX_SAMPLES = 6
-
-
-class CaseFailed(Exception):
-    pass
-
-
-class TooManyInconclusive(BaseException):
-    """the shard stops generating: the library does not answer on several tiny inputs"""
 
 
 MAX_INCONCLUSIVE = 3
@@ -69,8 +61,19 @@ class ShardState:
             if self.inconclusive >= getattr(self.mod, "MAX_INCONCLUSIVE", {}).get(self.tier, MAX_INCONCLUSIVE):
                 raise TooManyInconclusive()
             return []
+        return self.account(case, res)
+
+    def note_inconclusive(self, case):
+        self.inconclusive += 1
+        if len(self.inconclusive_samples) < 3:
+            self.inconclusive_samples.append(case)
+        if self.inconclusive >= getattr(self.mod, "MAX_INCONCLUSIVE", {}).get(self.tier, MAX_INCONCLUSIVE):
+            raise TooManyInconclusive()
+
+    def filter_failures(self, case, failures):
+        """drop failures attributed to an open finding or muted (already reported in this run)"""
         fails = []
-        for f in res.get("failures", []):
+        for f in failures:
             fid = findings.attribute(self.mod, self.open_entries, case, f)
             if fid is not None:
                 self.attributed[fid] += 1
@@ -78,6 +81,11 @@ class ShardState:
             if bucket_of(f) in self.muted:
                 continue
             fails.append(f)
+        return fails
+
+    def account(self, case, res):
+        """statistics of one executed case; returns its un-muted, un-attributed failures"""
+        fails = self.filter_failures(case, res.get("failures", []))
         for lab in res.get("labels", []):
             self.classes[lab] += 1
         for lab, k in res.get("excluded", {}).items():
@@ -95,6 +103,17 @@ class ShardState:
                     self.samples.append(case)
         return fails
 
+    def should_raise(self, case, fails):
+        """shared by the @given body and the stateful machines: decides whether this failing case is raised
+        to hypothesis (after the shrink budget only the current best keeps failing)"""
+        if self.calls_since_first_fail is None:
+            self.calls_since_first_fail = 0
+        if self.calls_since_first_fail > self.shrink_cap and self.last_fail is not None \
+                and case_hash(case) != case_hash(self.last_fail[0]):
+            return False
+        self.last_fail = (case, fails)
+        return True
+
     # -------------------------------------------------------------- hypothesis body
     def hyp_body(self, case):
         if self.calls_since_first_fail is not None:
@@ -102,13 +121,8 @@ class ShardState:
         fails = self.execute(case)
         if not fails:
             return
-        if self.calls_since_first_fail is None:
-            self.calls_since_first_fail = 0
-        if self.calls_since_first_fail > self.shrink_cap and self.last_fail is not None \
-                and case_hash(case) != case_hash(self.last_fail[0]):
-            return  # shrink budget used up: only the current best keeps failing
-        self.last_fail = (case, fails)
-        raise CaseFailed(bucket_of(fails[0]))
+        if self.should_raise(case, fails):
+            raise CaseFailed(bucket_of(fails[0]))
 
     def record_found(self, case, fails, how):
         buckets = sorted({bucket_of(f) for f in fails})
